@@ -18,6 +18,9 @@ var harnesses = map[string]func(){
 	"T0Pipeline":      T0Pipeline,
 	"C14BadNotation":  C14BadNotation,
 	"C04Matrix":       C04Matrix,
+	"C06Shapes":       C06Shapes,
+	"C05SameName":     C05SameName,
+	"C04Names":        C04Names,
 	"C08CreateFunction": C08CreateFunction,
 	"C14OutIsInput":   C14OutIsInput,
 	"C17Selection":    C17Selection,
